@@ -171,9 +171,12 @@ def make_auth_engine(config, family="auth"):
         async def cat(parent, args, ctx, info):
             return {"_typename": "Cat", "id": "c1", "lives": 9}
 
-        @Resolver("Query.nodes", schema_name=name)
+        # one list object per engine, handed out again on every request (an in-memory store), completed item after item
+        store = [{"_typename": "Cat", "id": "c1", "lives": 9}, {"_typename": "Dog", "id": "d1", "tricks": 2}]
+
+        @Resolver("Query.nodes", schema_name=name, list_concurrently=False)
         async def nodes(parent, args, ctx, info):
-            return [{"_typename": "Cat", "id": "c1", "lives": 9}, {"_typename": "Dog", "id": "d1", "tricks": 2}]
+            return store
 
         @Resolver("Query.pet", schema_name=name)
         async def pet(parent, args, ctx, info):
